@@ -82,9 +82,9 @@ theorem readLoop_data (dir : Str) (chunks : List Bytes) : ∀ (s : RState) (rest
 
 /-- one whole file read by the extractor: one more line, one more write -/
 theorem readLoop_file (dir name ext : Str) (kind mode : Nat) (chunks : List Bytes) (hn : NameOK name ext)
-    (s : RState) (rest : List Bytes) :
+    (s : RState) (rest : List Bytes) (hk : collides s.keep (pathJoin dir (name ++ [46] ++ ext)) = false) :
     ∃ l', readLoop true dir s (fileFrames name ext kind mode chunks ++ rest)
-      = readLoop true dir { l := l',
+      = readLoop true dir { l := l', keep := s.keep,
                             out := s.out ++ [lineOf s.l.verbose ⟨name, ext, kind, mode⟩ (s.l.blockIndex + 1)
                                               (chunks.map List.length).sum chunks.length],
                             desc := some ⟨name, ext, kind, mode⟩, content := chunks.flatten,
@@ -99,7 +99,7 @@ theorem readLoop_file (dir name ext : Str) (kind mode : Nat) (chunks : List Byte
   rw [e1]
   simp only [readLoop, readStep, blockType_eof, if_true, List.nil_append]
   have hcur : l1.current = some ⟨name, ext, kind, mode⟩ := by rw [hd.current]; rfl
-  simp only [hn.no_slash, hn.no_nul, hn.openable, Bool.false_eq_true, if_false, Bool.not_true, onEndBlock, hcur]
+  simp only [hn.no_slash, hk, hn.no_nul, hn.openable, Bool.false_eq_true, if_false, Bool.not_true, onEndBlock, hcur]
   refine ⟨{ l1 with blockIndex := l1.blockIndex + 1, current := none }, ?_, ?_, ?_⟩
   · congr 2
     · rw [endLine_congr]
